@@ -110,9 +110,11 @@ const CONVERSE: &[Converse] = &[
     Converse {
         name: "alias",
         ext: Extensions::COMPONENT_ALIAS,
-        variants: &["@white wine|wine{}", "@white wine|wine{1%l}", "#big pot|pot{}"],
+        variants: &["@white wine|wine{}", "@white wine|wine{1%l}", "#big pot|pot{}", "~low|high heat{5%min}"],
         check: |r, v| {
-            if v.starts_with('#') {
+            if v.starts_with('~') {
+                r.timers.iter().find(|t| t.name.as_deref() == Some("low|high heat")).map(|_| ()).ok_or_else(|| format!("timer name should keep the `|`; timers {:?}", r.timers.iter().map(|t| &t.name).collect::<Vec<_>>()))
+            } else if v.starts_with('#') {
                 let c = r.cookware.iter().find(|c| c.name == "big pot|pot").ok_or("cookware name should keep the `|`")?;
                 if c.alias.is_some() {
                     return Err("alias set".into());
@@ -132,11 +134,16 @@ const CONVERSE: &[Converse] = &[
     Converse {
         name: "range",
         ext: Extensions::RANGE_VALUES,
-        variants: &["@eggs{2-3}", "@eggs{2-3%g}", "@eggs{1.5-2%l}"],
+        variants: &["@eggs{2-3}", "@eggs{2-3%g}", "@eggs{1.5-2%l}", "@eggs{2-3 cups}", "@eggs{1 1/2-2 kg}"],
         check: |r, v| {
             let i = ingredient(r, "eggs")?;
             let want = v.trim_start_matches("@eggs{").split(['%', '}']).next().unwrap();
-            text_value(i.quantity.as_ref(), want)
+            text_value(i.quantity.as_ref(), want)?;
+            // `2-3 cups`: not a number, so not a value + unit either, whatever ADVANCED_UNITS says
+            if !v.contains('%') && i.quantity.as_ref().unwrap().unit().is_some() {
+                return Err(format!("unit {:?} split off a non-numeric value", i.quantity.as_ref().unwrap().unit()));
+            }
+            Ok(())
         },
         need: 0,
         prefix: "",
@@ -144,10 +151,10 @@ const CONVERSE: &[Converse] = &[
     Converse {
         name: "advanced_units",
         ext: Extensions::ADVANCED_UNITS,
-        variants: &["@water{1 kg}", "@water{1 1/2 cups}", "@water{.5 l}"],
+        variants: &["@water{1 kg}", "@water{1 1/2 cups}", "@water{.5 l}", "@water{2-3 kg}", "@water{=1 kg}"],
         check: |r, v| {
             let i = ingredient(r, "water")?;
-            let want = v.trim_start_matches("@water{").trim_end_matches('}');
+            let want = v.trim_start_matches("@water{").trim_end_matches('}').trim_start_matches('=');
             text_value(i.quantity.as_ref(), want)?;
             if i.quantity.as_ref().unwrap().unit().is_some() {
                 return Err("unit set".into());
